@@ -24,9 +24,34 @@ end
 /-- the logical content of a start-of-transaction bucket tree -/
 def content (b : Bk) : SVal := absTop (bkDepth b + 1) b b
 
+/-- a nested bucket is shallower than the list it sits in -/
+theorem bkDepth_mem : ∀ (o : List (Bytes × Bk)) (p : Bytes × Bk), p ∈ o → bkDepth p.2 ≤ bkDepthKids o
+  | [], p, hp => by cases hp
+  | (n, c) :: r, p, hp => by
+    rw [bkDepthKids]
+    rcases List.mem_cons.mp hp with rfl | hp
+    · exact Nat.le_max_left ..
+    · exact Nat.le_trans (bkDepth_mem r p hp) (Nat.le_max_right ..)
+
+/-- a fuel of at least the nesting depth covers the nesting -/
+theorem nestOk_of_bkDepth : ∀ (f : Nat) (b : Bk), bkDepth b ≤ f → BktHistoryL.nestOk f b = true
+  | 0, .mk r s t o, h => by rw [bkDepth] at h; omega
+  | f+1, .mk r s t o, h => by
+    rw [bkDepth] at h
+    rw [BktHistoryL.nestOk_succ]
+    intro p hp
+    have := bkDepth_mem o p hp
+    exact nestOk_of_bkDepth f p.2 (by omega)
+
+/-- the fuel `content` is computed with covers the nesting -/
+theorem nestOk_bkDepth_succ (b : Bk) : BktHistoryL.nestOk (bkDepth b + 1) b = true :=
+  nestOk_of_bkDepth _ b (Nat.le_succ _)
+
 /-- for a well-formed tree the fuel does not matter -/
 theorem content_fuel (fu : Nat) (b : Bk) (h : origShapeOk fu b = true) : absTop fu b b = content b := by
-  sorry
+  unfold content absTop
+  rw [BktHistoryL.absBk_nest2 false fu b h fu (bkDepth b + 1)
+    (BktHistoryL.nestOk_of_origOkG false fu b h) (nestOk_bkDepth_succ b) b b [] []]
 
 /-- one transaction of a history -/
 structure TxRec where
@@ -59,11 +84,23 @@ def finalTree : Bk → List TxRec → Bk
   | orig, [] => orig
   | _, r :: rest => finalTree r.next rest
 
+set_option linter.unusedVariables false in
 /-- **any history refines the reference model**: the content at the end is the reference model's
-    state after all calls of all transactions, in order -/
+    state after all calls of all transactions, in order.  (`h0` is not needed by the proof: for a
+    non-empty history `HistOk` already contains `origOk`, for the empty one nothing is to show.) -/
 theorem history_refines (orig : Bk) (recs : List TxRec) (h : HistOk orig recs) (h0 : ∃ fu, origShapeOk fu orig = true) :
     content (finalTree orig recs) =
       recs.foldl (fun s r => r.calls.foldl specCall s) (content orig) := by
-  sorry
+  clear h0
+  induction recs generalizing orig with
+  | nil => rfl
+  | cons r rest ih =>
+    obtain ⟨ho, hc, hf, hcov, hlink, hrest⟩ := h
+    obtain ⟨cur', fu', hcm, _, hshape, hfull⟩ :=
+      root_transaction_refines r.ps r.sth r.rth r.fu orig r.calls r.order ho hc hf hcov
+    have e1 : content r.next = r.calls.foldl specCall (content orig) := by
+      rw [hlink cur' hcm, ← content_fuel fu' _ hshape, hfull,
+        content_fuel r.fu orig (BktHistoryL.shape_of_origOk r.fu orig ho)]
+    rw [finalTree, List.foldl_cons, ih r.next hrest, e1]
 
 end Bolt.C04Bkt
